@@ -695,14 +695,14 @@ func runC10(c *kit.Ctx) {
 		found := false
 		kit.Instrs(rdr, func(in ssa.Instruction) {
 			sl, ok := in.(*ssa.Slice)
-			if !ok || sl.High == nil || sl.Low != nil {
+			if !ok || sl.High == nil {
 				return
 			}
 			// qualifier := b[:qualifierLen]; walk the SUB chain collecting constants
 			v := sl.High
 			total := int64(0)
 			subs := 0
-			for {
+			for sl.Low == nil {
 				bo, ok := v.(*ssa.BinOp)
 				if !ok || bo.Op != token.SUB {
 					break
@@ -717,7 +717,11 @@ func runC10(c *kit.Ctx) {
 			if !(subs == 2 && total > 0) {
 				// any other spelling of the same linear expression (a named subtotal, reordered terms):
 				// one quantity minus two others minus a constant
+				// (or b[off:off+qualifierLen] when the fields are addressed by offset: the length of the slice)
 				lin := eng.Lin(sl.High)
+				if sl.Low != nil {
+					lin = lin.Sub(eng.Lin(sl.Low))
+				}
 				pos, neg := 0, 0
 				for _, k := range lin.T {
 					switch k {
@@ -996,18 +1000,31 @@ func writerEvents(app *ssa.Function, cbsParam *ssa.Parameter, eng *bounds.Engine
 			ok = false
 		}
 	}
+	// offset of the first byte of a window into the buffer, relative to the old end of the buffer: cbs[i:] is at
+	// i - len(cbs); a window of a window (dst = dst[4:]) is that much further
+	var off func(sl *ssa.Slice) bounds.Lin
+	off = func(sl *ssa.Slice) bounds.Lin {
+		low := bounds.Const(0)
+		if sl.Low != nil {
+			low = eng.Lin(sl.Low)
+		}
+		if inner, isSl := kit.Strip(sl.X).(*ssa.Slice); isSl {
+			return off(inner).Add(low)
+		}
+		return low.Sub(base)
+	}
 	kit.Instrs(app, func(in ssa.Instruction) {
 		switch x := in.(type) {
 		case *ssa.Call:
 			n := kit.CalleeName(x)
 			if w, isPut := width(n, "Put"); isPut {
 				sl, isSl := x.Call.Args[1].(*ssa.Slice)
-				if !isSl || sl.Low == nil {
+				if !isSl {
 					ok = false
 					return
 				}
 				setStyle("cursor")
-				evs = append(evs, wEvent{fmt.Sprintf("u%d", w*8), x.Call.Args[2], eng.Lin(sl.Low).Sub(base), bounds.Const(int64(w)), x.Pos(), x})
+				evs = append(evs, wEvent{fmt.Sprintf("u%d", w*8), x.Call.Args[2], off(sl), bounds.Const(int64(w)), x.Pos(), x})
 				return
 			}
 			if w, isApp := width(n, "Append"); isApp {
@@ -1019,12 +1036,12 @@ func writerEvents(app *ssa.Function, cbsParam *ssa.Parameter, eng *bounds.Engine
 			switch n {
 			case "builtin.copy":
 				sl, isSl := x.Call.Args[0].(*ssa.Slice)
-				if !isSl || sl.Low == nil {
+				if !isSl {
 					ok = false
 					return
 				}
 				setStyle("cursor")
-				evs = append(evs, wEvent{"bytes", kit.Strip(x.Call.Args[1]), eng.Lin(sl.Low).Sub(base), eng.LenOf(x.Call.Args[1]), x.Pos(), x})
+				evs = append(evs, wEvent{"bytes", kit.Strip(x.Call.Args[1]), off(sl), eng.LenOf(x.Call.Args[1]), x.Pos(), x})
 			case "builtin.append":
 				// append(cbs, make([]byte, n)...) pre-sizes the region of the cursor style
 				if _, isMk := kit.Root(x.Call.Args[1]).(*ssa.MakeSlice); isMk {
@@ -1050,7 +1067,11 @@ func writerEvents(app *ssa.Function, cbsParam *ssa.Parameter, eng *bounds.Engine
 						return // element of a variadic literal
 					}
 					setStyle("cursor")
-					evs = append(evs, wEvent{"u8", x.Val, eng.Lin(ia.Index).Sub(base), bounds.Const(1), x.Pos(), nil})
+					at := eng.Lin(ia.Index).Sub(base)
+					if win, isSl := kit.Strip(ia.X).(*ssa.Slice); isSl {
+						at = off(win).Add(eng.Lin(ia.Index))
+					}
+					evs = append(evs, wEvent{"u8", x.Val, at, bounds.Const(1), x.Pos(), nil})
 				}
 			}
 		}
